@@ -165,6 +165,9 @@ pub fn find_real(sc: &FindScenario, ctx: &mut Ctx, bins: &Path, sub: &str, cmd_t
     let sp = dir.join("child.script");
     let script = script_of(&sc.outcomes).ok_or("outcome not scriptable")?;
     let _ = std::fs::write(&sp, script);
+    if let Some(list) = sc.starts_file_content() {
+        let _ = std::fs::write(root.join(crate::find::STARTS_FILE), list);
+    }
     let mut argv: Vec<String> = vec![];
     for a in &sc.full_argv() {
         if a == cmd_token || *a == format!("{cmd_token}2") {
